@@ -16,6 +16,7 @@ import (
 	"github.com/antonmedv/expr/parser"
 	"github.com/antonmedv/expr/vm"
 
+	"verif/mc/c08lib"
 	"verif/mc/gen"
 	"verif/mc/henv"
 	"verif/mc/lib"
@@ -126,6 +127,20 @@ func c09HistOps() []c09HistOp {
 		case "struct", "map", "operators", "map+operators+undef", "shared-option-values+undef", "asint", "constexpr":
 			cfgs = append(cfgs, c)
 		}
+	}
+	for _, b := range []int{20, 100000, 60} {
+		b := b
+		ops = append(ops, c09HistOp{fmt.Sprintf("set vm.MemoryBudget = %d", b), func() string { vm.MemoryBudget = b; return "set" }})
+	}
+	for _, src := range []string{"len(1..50) + I", "[1..30, 5..1][0][I]", "I in 1..1000"} {
+		src := src
+		ops = append(ops, c09HistOp{"Compile[struct] " + src, func() string {
+			p, err := lib.Compile(src, lib.Mode{Env: "struct", Opt: true})
+			if err != nil {
+				return "error"
+			}
+			return progKey(p)
+		}})
 	}
 	opOne, opBoth := expr.Operator("+", "OpCat"), expr.Operator("+", "OpCat", "OpAdd") // option VALUES shared by the operations below
 	for _, src := range []string{`S + "x"`, "I + 1"} {
@@ -307,6 +322,7 @@ func c09(r *report.Run) {
 	cfgs := c09Configs()
 	var compiles, runs int64
 	compiles += c09History(r)
+	vm.MemoryBudget = 60                // the history operations change it
 	hashes := make([]string, len(srcs)) // for the cross-process comparison
 	distinct := map[uint64]bool{}
 	var mu sync.Mutex
@@ -423,6 +439,21 @@ func c09(r *report.Run) {
 		}
 		hashes[i] = line.String()
 	})
+	// a POINTER environment with a nil embedded pointer: reading a promoted field fails and must not store into it
+	for i, src := range c08lib.PtrSources {
+		envP := c08lib.EnvP()
+		p, err := expr.Compile(src, expr.Env(&c08lib.PtrEnv{}))
+		if err != nil {
+			continue
+		}
+		before := snap.String(envP)
+		lib.Run(p, envP)
+		lib.Run(p, envP)
+		atomic.AddInt64(&runs, 2)
+		if after := snap.String(envP); after != before {
+			rep(int64(len(srcs)+100+i), "run@ptr-env", "environment-modified", src, map[string]interface{}{"field": c08Diff(before, after)})
+		}
+	}
 	if s := snap.String(sampleStruct); s != sampleSnap {
 		rep(int64(len(srcs)), "sample-env", "modified", "Env(sample) value changed", nil)
 	}
